@@ -145,4 +145,23 @@ CHECKS = {
              "mode without an explicit set.",
         note="Concrete override outcomes for concrete dict contents are not "
              "computed; escaping of the values is C02."),
+    "C09": dict(
+        technique="writer/reader agreement of key expressions; emission-tree "
+                  "rules for the macro prologue, define-slot and use-macro "
+                  "emitters; pairing of the compile-time collector stack; "
+                  "must-pass-through (cook_check) by path enumeration",
+        text="Decides necessary structural conditions of macro expansion for "
+             "all macro libraries and callers: slot keys and render-function "
+             "names are built by the same expression where written and read; "
+             "the prologue pops one filler per slot name before the body, "
+             "fillers are pushed left by extend and popped right, use-macro "
+             "replaces the stack; define-slot is 'filler is None -> default, "
+             "else call filler with a copy of the scope'; both macro calls "
+             "pass a copy of the scope and merge globals back; macroname is "
+             "a local definition around the use; the fill-slot collector "
+             "stack is balanced and stray fill-slots are rejected; public "
+             "macro access passes through cook_check.",
+        note="NECESSARY CONDITIONS ONLY: equality of the rendered text with "
+             "the hand-inlined template (the property's main clause) is "
+             "value-level and not decided."),
 }
